@@ -13,6 +13,11 @@ SELECTORS = ['water', 'dmso', 'nacl', 'na2so4', 'lipase', 'SOLID', 'LIQUID', 'EN
 Q_SLICES = ["'A:1'", "(2, 2)", "('B', 1)", "1", "'B'", "(slice(None), 1)", "(slice(None), '2')", "slice(None)",
             "(slice(None), slice(None))", "['A:2', 'B:1']", "[(2, 2)]", "(slice(1, 2), slice(2, 2))"]
 
+# sub-slices of a slice (0-based, undocumented): which wells they address is taken from the implementation's own
+# direct view; what is judged is that remove acts on exactly those wells, directly and as a recipe step
+SUB_SLICES = ["slice(None) || (slice(1, 2), slice(None))", "(slice(None), slice(None)) || (slice(0, 1), slice(1, 2))",
+              "(slice(1, 2), slice(None)) || (slice(None), slice(0, 1))"]
+
 _G = {}
 
 
@@ -70,10 +75,16 @@ def run_case(item):
         addressed = None
     else:
         obj = mk_plate(pp, subs, mi)
-        sel = selectors.ev(form) if form != 'plate' else slice(None)
-        kind, wells, _ = selectors.resolve(list(obj.row_names), list(obj.column_names), sel)
-        addressed = set(wells)
-        target = obj if form == 'plate' else obj[sel]
+        if '||' in form:
+            a, b = form.split(' || ')
+            target = obj[selectors.ev(a)][selectors.ev(b)]
+            names = {w.name for w in numpy.asarray(target.get()).flatten()}
+            addressed = {(r, c) for r in range(2) for c in range(2) if obj.wells[r, c].name in names}
+        else:
+            sel = selectors.ev(form) if form != 'plate' else slice(None)
+            kind, wells, _ = selectors.resolve(list(obj.row_names), list(obj.column_names), sel)
+            addressed = set(wells)
+            target = obj if form == 'plate' else obj[sel]
     fp = e1.exact_obj(obj)
     recipe = None
     try:
@@ -156,7 +167,7 @@ def run(col):
                 "object]) and the out-flow of the object must equal the removed amounts of exactly the addressed wells. "
                 "Non-trivial = distinct (object form, via, selector, mixture size, removed-something) classes")
     vals = [col.seed % 3] if col.tier == 'quick' else [0, 1, 2]
-    forms = ['container', 'plate'] + Q_SLICES
+    forms = ['container', 'plate'] + Q_SLICES + SUB_SLICES
     for v in vals:
         _G.update(pp=pp, vidx=v)
         items = [(mi, what, form, via) for mi in range(len(MIXTURES)) for what in SELECTORS for form in forms
